@@ -95,27 +95,62 @@ func newSharedCodecs() *sharedCodecs {
 	return s
 }
 
-func c18GenOps(T *Tape, sc *sharedCodecs, task int, n int) []shareOp {
+// c18Focus narrows one run to one family of shared state (swarm testing): a defect that needs several
+// overlapping calls of the same compressor or codec instance is out of reach when every call is drawn
+// from the whole menu.
+type c18Focus struct {
+	kind       int // 0 everything, 1 frames of one codec, 2 segments of one codec, 3 one compressor, 4 value codecs
+	codec      int // frame codec index / segment codec index / compressor
+	dtype      int
+	growing    bool // payload sizes grow from call to call
+	sizeCursor int
+}
+
+func c18GenOps(T *Tape, sc *sharedCodecs, task int, n int, fo *c18Focus) []shareOp {
 	var ops []shareOp
 	versions := allVersions
 	for j := 0; j < n; j++ {
 		tag := fmt.Sprintf("t%d.%d", task, j)
-		switch T.Draw("opkind", 5) {
+		opkind := T.Draw("opkind", 5)
+		switch fo.kind {
+		case 1:
+			opkind = 0
+		case 2:
+			opkind = 2
+		case 3:
+			opkind = 3
+		case 4:
+			opkind = 4
+		}
+		sizeOf := func(site string, mean int) int {
+			n := T.DrawGeo(site, mean)
+			if fo.growing {
+				fo.sizeCursor += 1 + n/4
+				n = fo.sizeCursor
+			}
+			return n
+		}
+		switch opkind {
 		case 0, 1: // frame encode + decode on a shared frame codec
 			v := versions[T.Draw("version", len(versions))]
 			ci := T.Draw("fcodec", len(sc.frameCodecs))
+			if fo.kind == 1 {
+				ci = fo.codec % len(sc.frameCodecs)
+				if ci == 2 {
+					versions = []primitive.ProtocolVersion{primitive.ProtocolVersion2, primitive.ProtocolVersion3, primitive.ProtocolVersion4}
+				}
+			}
 			if sc.frameNames[ci] == "snappy" && !v.SupportsCompression(primitive.CompressionSnappy) {
 				ci = 0
 			}
-			codec := sc.frameCodecs[ci]
 			f := GenFrame(T, GenOpts{Version: v, Requests: T.Bool("req", 0.5), Responses: true, MaxBytes: 3000, BigChance: 0.2, Compressible: T.Bool("compressible", 0.5), HeaderFlags: true}, int16(1+T.Draw("stream", 100)))
-			if ci != 0 && T.Bool("compressflag", 0.7) {
+			if ci != 0 && (T.Bool("compressflag", 0.7) || fo.kind == 1) {
 				markCompressed(T, f)
 			}
 			var encoded []byte
 			ops = append(ops, shareOp{name: tag + ":EncodeFrame/" + sc.frameNames[ci] + "/" + KindOf(f.Body.Message), run: func() (interface{}, error) {
 				var buf bytes.Buffer
-				err := codec.EncodeFrame(f.DeepCopy(), &buf)
+				err := sc.frameCodecs[ci].EncodeFrame(f.DeepCopy(), &buf)
 				if err == nil {
 					encoded = append([]byte(nil), buf.Bytes()...)
 				}
@@ -125,31 +160,33 @@ func c18GenOps(T *Tape, sc *sharedCodecs, task int, n int) []shareOp {
 				if encoded == nil {
 					return nil, nil
 				}
-				return codec.DecodeFrame(bytes.NewReader(encoded))
+				return sc.frameCodecs[ci].DecodeFrame(bytes.NewReader(encoded))
 			}})
 			if T.Bool("raw", 0.4) {
 				ops = append(ops, shareOp{name: tag + ":DecodeRawFrame+Convert/" + sc.frameNames[ci], run: func() (interface{}, error) {
 					if encoded == nil {
 						return nil, nil
 					}
-					raw, err := codec.DecodeRawFrame(bytes.NewReader(encoded))
+					raw, err := sc.frameCodecs[ci].DecodeRawFrame(bytes.NewReader(encoded))
 					if err != nil {
 						return nil, err
 					}
-					return codec.ConvertFromRawFrame(raw)
+					return sc.frameCodecs[ci].ConvertFromRawFrame(raw)
 				}})
 			}
 		case 2: // segment encode + decode
 			ci := T.Draw("scodec", len(sc.segmentCodecs))
-			codec := sc.segmentCodecs[ci]
-			size := T.DrawGeo("segsize", 3000)
+			if fo.kind == 2 {
+				ci = fo.codec % len(sc.segmentCodecs)
+			}
+			size := sizeOf("segsize", 3000)
 			payload := c07Payload(T.Draw("segkind", 3), size, uint64(task*1000+j))
 			self := T.Bool("self", 0.5)
 			var encoded []byte
 			ops = append(ops, shareOp{name: fmt.Sprintf("%s:EncodeSegment/%d", tag, ci), run: func() (interface{}, error) {
 				var buf bytes.Buffer
 				seg := &segment.Segment{Header: &segment.Header{IsSelfContained: self}, Payload: &segment.Payload{UncompressedData: append([]byte(nil), payload...)}}
-				err := codec.EncodeSegment(seg, &buf)
+				err := sc.segmentCodecs[ci].EncodeSegment(seg, &buf)
 				if err == nil {
 					encoded = append([]byte(nil), buf.Bytes()...)
 				}
@@ -159,16 +196,19 @@ func c18GenOps(T *Tape, sc *sharedCodecs, task int, n int) []shareOp {
 				if encoded == nil {
 					return nil, nil
 				}
-				seg, err := codec.DecodeSegment(bytes.NewReader(encoded))
+				seg, err := sc.segmentCodecs[ci].DecodeSegment(bytes.NewReader(encoded))
 				if err != nil {
 					return nil, err
 				}
 				return append([]byte{map[bool]byte{false: 0, true: 1}[seg.Header.IsSelfContained]}, seg.Payload.UncompressedData...), nil
 			}})
 		case 3: // compressors, both formats
-			size := T.DrawGeo("csize", 3000)
+			size := sizeOf("csize", 3000)
 			data := c07Payload(T.Draw("ckind", 3), size, uint64(task*77+j))
 			which := T.Draw("compressor", 3)
+			if fo.kind == 3 {
+				which = fo.codec % 3
+			}
 			ops = append(ops, shareOp{name: fmt.Sprintf("%s:compress/%d", tag, which), run: func() (interface{}, error) {
 				var c, d bytes.Buffer
 				switch which {
@@ -196,11 +236,17 @@ func c18GenOps(T *Tape, sc *sharedCodecs, task int, n int) []shareOp {
 						return nil, err
 					}
 				}
+				if !bytes.Equal(d.Bytes(), data) {
+					return nil, fmt.Errorf("decompress(compress(x)) != x: %d bytes in, %d bytes out", len(data), d.Len())
+				}
 				return append(append([]byte(nil), c.Bytes()...), d.Bytes()...), nil
 			}})
 		default: // CQL value codecs: package singletons and shared composite codecs
 			v := versions[T.Draw("version", len(versions))]
 			k := T.Draw("dtype", 18)
+			if fo.kind == 4 && T.Bool("samedtype", 0.7) {
+				k = fo.dtype
+			}
 			x := int64(T.Draw("val", 1<<20)) - 1<<19
 			ops = append(ops, shareOp{name: fmt.Sprintf("%s:datacodec/%d", tag, k), run: func() (interface{}, error) { return c18Value(sc, k, x, v) }})
 		}
@@ -311,10 +357,29 @@ func c18Share(r *Run) {
 	r.S.SortedMaps = true // byte-comparable encodings across passes (DESIGN.md §5 C18)
 	M := 2 + T.Draw("tasks", 3)
 	sc := newSharedCodecs()
+	// 0: the instances have been used (sequential reference pass) before they are shared;
+	// 1: the reference pass runs on twin instances, the shared ones see their FIRST calls concurrently;
+	// 2: no reference pass at all: instances and package-level state are cold when the tasks start, the
+	//    results are compared with a sequential pass made afterwards.
+	mode := T.DrawP("coldness", 3, 0.5)
+	r.Config["first_use"] = []string{"sequential (warm instances)", "concurrent (fresh instances, warm package state)", "concurrent (fresh instances, cold package state)"}[mode]
+	fo := &c18Focus{}
+	if T.Bool("focus", 0.4) {
+		fo.kind = 1 + T.Draw("focus.kind", 4)
+		fo.codec = T.Draw("focus.codec", 6)
+		fo.dtype = 11 + T.Draw("focus.dtype", 7)
+		fo.growing = T.Bool("focus.growing", 0.5)
+		M = 3 + T.Draw("focus.tasks", 4)
+	}
+	r.Config["focus"] = []string{"everything", "frames of one codec", "segments of one codec", "one compressor", "value codecs"}[fo.kind]
 	var all [][]shareOp
 	total := 0
 	for t := 0; t < M; t++ {
-		ops := c18GenOps(T, sc, t, 1+T.Draw("nops", 3))
+		nops := 1 + T.Draw("nops", 3)
+		if fo.kind != 0 {
+			nops += T.Draw("focus.moreops", 4)
+		}
+		ops := c18GenOps(T, sc, t, nops, fo)
 		all = append(all, ops)
 		total += len(ops)
 	}
@@ -338,9 +403,12 @@ func c18Share(r *Run) {
 		})
 		return r.Drive() && done
 	}
-	if !seqPass(ref, "seq1") {
+	if mode != 2 && !seqPass(ref, "seq1") {
 		r.Violate(P, "liveness", "sequential-pass-stuck", "sequential reference pass did not finish")
 		return
+	}
+	if mode == 1 {
+		*sc = *newSharedCodecs()
 	}
 	beforeSwitches := r.repoSwitches
 	// concurrent phase
@@ -369,6 +437,9 @@ func c18Share(r *Run) {
 	if !seqPass(after, "seq2") {
 		r.Violate(P, "liveness", "sequential-pass-stuck", "second sequential pass did not finish")
 		return
+	}
+	if mode == 2 {
+		ref = after
 	}
 	for t := range all {
 		for i, op := range all[t] {
